@@ -5,7 +5,7 @@ from ctypes import c_int, byref
 import gens, blk, compcases as cc
 from capi import Lib, Buf
 
-THEOREMS = ["C17_target_ge_bound", "C17_target_ge_bound_contract", "C17_fast_destSize", "C17_fast_fill_generic", "C17_hc_mid_destSize_strict", "C17_hc_chain_destSize"]
+THEOREMS = ["C17_target_ge_bound", "C17_target_ge_bound_contract", "C17_fast_destSize", "C17_fast_fill_generic", "C17_hc_mid_destSize_strict", "C17_hc_chain_destSize", "C17_hc_opt_destSize"]
 CORRESPONDENCE = [cc.MID_CORR, cc.CHAIN_CORR, cc.CHAIN_SEARCH_CORR,
                   "Model.FastApi.compress_destSize == LZ4_compress_destSize / _destSize_extState (return value, consumed size, bytes, high-water mark)"]
 ORACLES = ["block", "mid", "chain"]
@@ -16,7 +16,7 @@ RULE = ("inputs from the shared structured generators; EVERY targetDstSize 1..bo
         "consumed <= offered, the r bytes are strictly valid and decode (extracted specification decoder, and LZ4_decompress_safe into a buffer of exactly `consumed` bytes) "
         "to the consumed prefix, target >= bound => everything consumed, following blocks decode against the consumed history. "
         "non-trivial = 0 < consumed < offered (the budget cut the input); distinct = (input, entry, parameter, target)")
-TRUSTED = ["LZ4_compress_HC_destSize at levels 1-2 (LZ4MID) and 3-9 (hash chain) is modelled and tied; levels 10-12 and LZ4_compress_HC_continue_destSize: direct oracle only"]
+TRUSTED = ["LZ4_compress_HC_destSize at levels 1-2 (LZ4MID), 3-9 (hash chain) and 10-12 (optimal parser) is modelled and tied; LZ4_compress_HC_continue_destSize: direct oracle only"]
 ASSUMPTIONS = ["64-bit little-endian target"]
 
 def build(tier):
